@@ -27,6 +27,8 @@
 //! A message carries kind (selects the rule), ttl (header id; emissions need ttl > 0 and emit ttl-1) and
 //! a serial number (content) that counts the emissions of the run.
 //!
+//! Header: seed=<u64> noise=<seed of the noise simulation> child=0|1 clock=0|1 burn=<n> (advance the
+//! process-global module-id counter by n before the first execution).
 //! Transcript: header extended with `tq=front|skip` (measured behaviour of `TimerQueue::next`, a model
 //! parameter), the script lines, then per run R in a1 a2 b c
 //!   o <R> <time> <path> <what> <who> <src> <args...>     canonical observation (no ids, no addresses)
@@ -476,6 +478,15 @@ fn probe_tq() -> &'static str {
     }
 }
 
+/// header `burn=<n>`: advance the process-global `MODULE_ID` counter by `n` before the first execution of
+/// the case (what `n` modules of earlier simulations in this process would have done)
+fn burn_module_ids(header: &str) {
+    let n: u64 = hval(header, "burn").and_then(|v| v.parse().ok()).unwrap_or(0);
+    for _ in 0..n.min(1 << 20) {
+        drop(des::net::module::ModuleContext::standalone(ObjectPath::from("burn")));
+    }
+}
+
 fn is_result_line(l: &str) -> bool {
     l.starts_with("o ") || l.starts_with("d ") || l.starts_with("bt ") || l.starts_with("res ")
 }
@@ -508,6 +519,7 @@ pub fn exec(input: &str) -> String {
         for (header, body) in &cs {
             let net = Arc::new(parse(body));
             let seed: u64 = hval(header, "seed").and_then(|v| v.parse().ok()).unwrap_or(1);
+            burn_module_ids(header);
             let r = simulate(&net, seed);
             writeln!(out, "{header}").unwrap();
             let clock = hval(header, "clock").map(|v| v == "1").unwrap_or(false);
@@ -552,6 +564,7 @@ pub fn exec(input: &str) -> String {
         let net = Arc::new(parse(body));
         let seed: u64 = hval(header, "seed").and_then(|v| v.parse().ok()).unwrap_or(1);
         let noise: u64 = hval(header, "noise").and_then(|v| v.parse().ok()).unwrap_or(7);
+        burn_module_ids(header);
         let a1 = simulate(&net, seed);
         let a2 = simulate(&net, seed);
         // an unrelated simulation: other size, other seed, other end time
